@@ -53,13 +53,14 @@ def engine_path(variant="plain"):
         if p.returncode != 0:
             raise BuildError("build of variant %s failed:\n%s" % (variant, p.stderr[-4000:]))
         os.replace(tmp, out)
-        # drop stale builds of this variant
+        # drop stale builds of this variant (old ones only: a concurrent check on another tree may use them)
+        import time
         for old in glob.glob(os.path.join(BUILD, "engine-%s-*.so" % variant)):
-            if old != out:
-                try:
+            try:
+                if old != out and time.time() - os.path.getmtime(old) > 6 * 3600:
                     os.remove(old)
-                except OSError:
-                    pass
+            except OSError:
+                pass
         return out
     finally:
         fcntl.flock(lock, fcntl.LOCK_UN)
